@@ -19,6 +19,7 @@ import (
 	"os"
 	"os/exec"
 	"runtime"
+	"sort"
 	"strings"
 	"sync"
 	"sync/atomic"
@@ -241,6 +242,57 @@ func TestVerifC09(t *testing.T) {
 			}(l)
 		}
 		wg.Wait()
+		// a host name that one listener has registered and that has resolved is then named by further
+		// listeners: each of them gets the resolved addresses as well (bounded progress: 20 s).
+		// (Sequential on purpose: under the churn above two notifications may overtake each other,
+		// which the resolver's real cadence of seconds does not produce - see DESIGN.md B.4.)
+		{
+			host2 := fmt.Sprintf("known%d.verif.test", round)
+			set2 := []string{fmt.Sprintf("127.5.%d.81", round), fmt.Sprintf("127.5.%d.82", round)}
+			want := []string{}
+			for _, a := range set2 {
+				want = append(want, a+":7000", a+":7001")
+			}
+			sort.Strings(want)
+			members := func(rb *RoundRobinBackend) []string {
+				var m []string
+				for k := range rb.GetAllBackend() {
+					m = append(m, k)
+				}
+				sort.Strings(m)
+				return m
+			}
+			holds := func(rb *RoundRobinBackend) bool {
+				deadline := time.Now().Add(20 * time.Second)
+				for strings.Join(members(rb), ",") != strings.Join(want, ",") {
+					if time.Now().After(deadline) {
+						return false
+					}
+					time.Sleep(time.Millisecond)
+				}
+				return true
+			}
+			urls := []string{"udp://" + host2 + ":7000", "tcp://" + host2 + ":7001"}
+			first, err := CreateRoundRobinBackend(fmt.Sprintf("127.5.%d.58:0", round), urls, func(c net.Conn) {})
+			if err == nil {
+				dynamicHostResolver.addressResolved(host2, append([]string{}, set2...), nil)
+				if !holds(first) {
+					run.Violation("a rotation does not hold the addresses its host name resolved to", map[string]any{"round": round, "members": members(first), "resolved": want})
+				} else {
+					for l := 0; l < 3; l++ {
+						rb, err := CreateRoundRobinBackend(fmt.Sprintf("127.5.%d.%d:0", round, 55+l), urls, func(c net.Conn) {})
+						if err != nil {
+							continue
+						}
+						if !holds(rb) {
+							run.Violation("several listeners name the same backend host: a later one does not get the addresses the name has resolved to", map[string]any{"round": round, "listener": l + 2, "members": members(rb), "resolved": want})
+							break
+						}
+						run.Eval(fmt.Sprintf("known-host-name|listener%d", l+2))
+					}
+				}
+			}
+		}
 		// (d) membership changes while the loop dispatches (through a real proxy loop)
 		fx, err := newVfFixture("svc.verif.test", fmt.Sprintf("127.5.%d.60", round), 5060, []string{"udp://" + host + ":7000", "tcp://" + host + ":7001"}, 1200, false, false, true, nil, nil)
 		if err == nil {
